@@ -176,7 +176,7 @@ def dp(P, C, variant=None):
         if loops and init == "order[0]":
             L = loops[0]
             txt, order = f.alpha(L)
-            want = "ForStmt(unsigned int v0 = 1, (v0 < ndim), (v0++), CompoundStmt(IfStmt((order[v0] != v1), CompoundStmt((v1 = 0), BreakStmt))))"
+            want = "ForStmt(unsigned int v0 = 1, (v0 < ndim), (v0++), IfStmt((order[v0] != v1), CompoundStmt((v1 = 0), BreakStmt)))"
             okc = txt == want and order[1] == ocv
             det = "constant order = order[0] unless some order[j] differs, then 0: %s" % txt[:150]
         C.ob("DP-4", name, "constant-order", okc, f.where(), det)
@@ -783,7 +783,7 @@ def _render_stmt_tree(f, i):
     k = n["k"]
     ch = f.ch(i)
     if k in ("CompoundStmt",):
-        return "{" + " ".join(_render_stmt_tree(f, x) for x in ch) + "}"
+        return "{" + " ".join(t for t in (_render_stmt_tree(f, x) for x in ch) if t) + "}"     # a type alias declaration renders as nothing
     if k == "ForStmt":
         return "for(%s;%s;%s)%s" % tuple(_render_stmt_tree(f, n[x]) if n.get(x, -1) >= 0 else "" for x in ("init", "cond", "inc", "body"))
     if k == "IfStmt":
@@ -796,7 +796,7 @@ def _render_stmt_tree(f, i):
         for d in n["decls"]:
             if d.get("dk") == "Var":
                 ext = "".join("[%s]" % (f.render(e).replace("this->", "").replace("table.", "") if e >= 0 else "") for e in d.get("extents", []))
-                ty = re.sub(r"\[.*", "", d.get("type", ""))
+                ty = re.sub(r"\[.*", "", d.get("ctype") or d.get("type", ""))      # canonical type: an alias is the type it names
                 out.append("%s %s%s%s" % (ty.replace("Float", "F"), d["name"], ext, (" = " + _expr(f, d["init"])) if d.get("init", -1) >= 0 else ""))
         return "; ".join(out)
     if "assert" in (n.get("macros") or []):
@@ -934,7 +934,7 @@ def cl8(P, C):
         for i in f.walk():
             if f.k(i) == "IfStmt":
                 c = f.alpha(f.nodes[i]["cond"])[0].replace(" ", "")
-                if c == "($0[v0]>=knots[v0][naxes[v0]])":
+                if c == "(knots[v0][naxes[v0]]<=$0[v0])":
                     st = [f.alpha(x)[0].replace(" ", "") for x in f.walk(f.nodes[i]["then"]) if ts.assign_parts(f, x)]
                     A = "($1[v0]=(naxes[v0]-1))" in st
     # premise B: right-continuous degree-0 indicator in the reference
@@ -945,7 +945,7 @@ def cl8(P, C):
         for i in f.walk():
             if f.k(i) == "BinaryOperator" and f.nodes[i]["op"] == "&&":
                 t = f.alpha(i)[0].replace(" ", "")
-                if t == "(($1>=$0[$2])&&($1<$0[($2+1)]))":
+                if t == "(($0[$2]<=$1)&&($1<$0[($2+1)]))":
                     B = True
     n = 0
     for f in sorted(entry_points(P), key=lambda f: (f.cls, f.name, str(f.targs))):
